@@ -133,13 +133,50 @@ Definition keys_of_item (it : item) : list key :=
   match it with IUpd u => [u_key u] | IStatus _ => [] end.
 Definition keys_of_obs (b : obs) : list key := flat_map keys_of_item (fst b).
 
-(* one correspondence case, as written by the Go harness *)
-Record case := { c_ops : list op; c_outs : list obs }.
+(* --- the wire's side, for runs through the real client (Model.client_ops) --- *)
+(* what the latest connection has sent: fold of the KV messages since the last drop *)
+Definition wire_step (v : view) (e : cev) : view :=
+  match e with
+  | EvDrop _ => vempty
+  | EvKVs us => fold_left apply_update us v
+  | _ => v
+  end.
+Definition last_conn_view (evs : list cev) : view := fold_left wire_step evs vempty.
+(* a connection was dropped and no in-sync message has arrived on a later connection *)
+Definition wire_resync_step (b : bool) (e : cev) : bool :=
+  match e with
+  | EvDrop _ => true
+  | EvStatus InSync _ => false
+  | _ => b
+  end.
+Definition wire_resync_pending (evs : list cev) : bool := fold_left wire_resync_step evs false.
+
+(* one correspondence case, as written by the Go harness:
+   c_ops / c_outs : the history and, per operation, the items the sink received and whether the queue was empty after;
+   c_cbs          : per operation, the batch size used by the consumer step and the sink callbacks as they were made
+                    (OnUpdates slices / OnStatusUpdated), to be compared with Model.callbacks_of;
+   c_events       : for runs through the real syncclient, what happened on the wire (empty otherwise); the history
+                    c_ops must be what Model.client_ops makes of it. *)
+Record case := { c_ops : list op; c_outs : list obs; c_cbs : list (nat * list cb); c_events : list cev }.
 
 Definition case_keys (c : case) : list key :=
   dedup (flat_map keys_of_op (c_ops c) ++ flat_map keys_of_obs (c_outs c)).
 
 Definition ok_case (c : case) : bool := ok_run (case_keys c) [] vempty (c_ops c) (c_outs c).
 
+Fixpoint cbs_match (outs : list obs) (cbs : list (nat * list cb)) : bool :=
+  match outs, cbs with
+  | [], [] => true
+  | o :: outs', (bs, cs) :: cbs' => list_eqb cb_eqb (callbacks_of bs (fst o)) cs && cbs_match outs' cbs'
+  | _, _ => false
+  end.
+
+Definition events_match (c : case) : bool :=
+  match c_events c with
+  | [] => true
+  | evs => list_eqb op_eqb (client_ops evs) (c_ops c)
+  end.
+
 Definition check_case (c : case) : bool * bool :=
-  (list_eqb obs_eqb (run_obs init (c_ops c)) (c_outs c), ok_case c).
+  (list_eqb obs_eqb (run_obs init (c_ops c)) (c_outs c) && cbs_match (c_outs c) (c_cbs c) && events_match c,
+   ok_case c).
